@@ -49,16 +49,16 @@ CHECKS = {
          "Every chain of the 20 adapter instances up to the depth bound over 8 sources (slices, ranges, slice iterators, string::chars/split, nested slices) x for_each!/14 eval! consumers/collect_const!, each executed on every input array over a small alphabet up to the length bound and compared with the same std chain (enumerate as EnumInOrder, rposition as rev().position()); unexpected rejections by rustc are violations; the known deviation (order-sensitive adapter before a reversal) is matched behaviourally against the reverse-hoisted model and reported as KNOWN-FINDING F7.",
          "3/C10"),
  "C11": ("program-space exploration of array-macro invocations x closure behaviours (every early-exit kind at every element) plus exhaustive operation histories on ArrayBuilder with a reference model",
-         "array::map!/map_!/from_fn!/from_fn_!/collect_const! for every length up to the bound, element types, parameter forms and closure behaviours (well-behaved or break/continue/return/?/labelled break/continue/panic at each element): well-behaved programs must equal std, hostile ones must not yield any array other than std's; ArrayBuilder: every push/build/clone/drop history up to depth N+4 incl. over- and under-filling against a vec model. collect_const! = Iterator::collect on all chains of up to 2 direction-sensitive adapters and every 3-chain containing rev() (const context, 4 inputs); F7-shaped disagreements are the known finding only if they equal the reverse-hoisted model.",
+         "array::map!/map_!/from_fn!/from_fn_!/collect_const! for every length up to the bound, element types, parameter forms and closure behaviours (well-behaved or break/continue/return/?/labelled break/continue/panic at each element): well-behaved programs must equal std, hostile ones must not yield any array other than std's; ArrayBuilder: every push/build/clone/drop history up to depth N+4 incl. over- and under-filling against a vec model. collect_const! = Iterator::collect on all chains of up to 2 direction-sensitive adapters and every 3-chain containing rev() (const context, 4 inputs), plus open ranges a.. driven up to T::MAX by take(n); F7-shaped disagreements are the known finding only if they equal the reverse-hoisted model.",
          "3/C11"),
  "C15": ("exhaustive exploration by re-execution of every operation history on ArrayConsumer/ArrayBuilder over a drop-tracking element type with a ledger; program-space exploration of every destructure! pattern shape",
-         "Every next/next_back/drop/assert_is_empty/clone history (two live objects, start from new() or empty()) up to depth N+4 for N<=4 with as_slice checked and as_mut_slice written after every step: the ledger must show each element handed out or dropped exactly once, in order, payload intact; map_!/from_fn_! with a closure panicking at each element; destructure! over braced/tuple structs, tuples of arity 1..=16, arrays with every prefix/rest/suffix split, `_`, `..`, packed and generic/ZST fields, checking bound values, immediate drops and the final ledger. The same histories and destructure! shapes are repeated over a zero-sized element type with a destructor (counter ledger).",
+         "Every next/next_back/drop/assert_is_empty/clone history (two live objects, start from new() or empty()) up to depth N+4 for N<=4 with as_slice checked and as_mut_slice written after every step: the ledger must show each element handed out or dropped exactly once, in order, payload intact; map_!/from_fn_! with a closure panicking at each element, map_! with the mapper leaving through return / ? / labelled break at each element (ledger must balance exactly); destructure! over braced/tuple structs, tuples of arity 1..=16, arrays with every prefix/rest/suffix split, `_`, `..`, packed and generic/ZST fields, checking bound values, immediate drops and the final ledger. The same histories and destructure! shapes are repeated over a zero-sized element type with a destructor (counter ledger).",
          "3/C15"),
  "C19": ("program-space exploration: every option::/result:: macro x argument form x every small input, try_!/try_opt!, rebind macros for every arity 1..=6 x position kinds, min/max family on all pairs of keyed values, each next to its std counterpart",
-         "Each macro and accepted argument form (closure, function path) on every value of its small input set with value and fallback-call-count compared with std; try_rebind!/rebind_if_ok! for arities 1..=6 (all kind assignments up to arity 3, uniform and single-position variations above, places that alias or depend on earlier components), rejections by rustc count as violations; min!/max!/_by/_by_key on all ordered pairs of (key,id) values. Unparenthesised single-target rebind forms and whole-pattern annotations are included; min/max operands are also given as expressions whose evaluation is counted (exactly once each).",
+         "Each macro and accepted argument form (closure, function path) on every value of its small input set with value and fallback-call-count compared with std; try_rebind!/rebind_if_ok! for arities 1..=6 (all kind assignments up to arity 3, uniform and single-position variations above, places that alias or depend on earlier components), rejections by rustc count as violations; min!/max!/_by/_by_key on all ordered pairs of (key,id) values and on all pairs of boundary values of each of the 12 primitive integer types. Unparenthesised single-target rebind forms and whole-pattern annotations are included; min/max operands are also given as expressions whose evaluation is counted (exactly once each).",
          "3/C19"),
  "C20": ("program-space exploration of constant argument lists for str_concat!/str_join!/from_iter!/slice_concat! evaluated at compile time, plus exhaustive byte strings for the CStr functions, against std",
-         "All lists of 0..=3 pieces over an alphabet with multi-byte strings/chars x all separators x three argument forms, each evaluated by rustc in its own const and compared with concat/join/collect at run time; CStr constructors and conversions on all byte strings up to length 6 over {0,'a',C3,B1,FF} against core::ffi::CStr (success agreement, equal CStr, bytes by address).",
+         "All lists of 0..=3 pieces over an alphabet with multi-byte strings/chars x all separators x three argument forms, a piece and a separator of every byte length 0..=40 (thorough 130), each evaluated by rustc in its own const and compared with concat/join/collect at run time; CStr constructors and conversions on all byte strings up to length 6 over {0,'a',C3,B1,FF} against core::ffi::CStr (success agreement, equal CStr, bytes by address).",
          "3/C20"),
  "C01": ("three monitors over the bounded explorations of the other properties: the Miri interpreter on the reduced-bound explorers (one interpreter process per engine), rustc's const evaluator on a battery of const-fn drivers, and a native sub-range/UTF-8 oracle on every returned slice/str",
          "Run-time UB: every explorer of C02-C09, C15, C20 (thorough: also C12, C13, C16) plus a driver for maybe_uninit/manually_drop/ptr/nonnull/array macros/destructure!/DSL macros executed under Miri at an interpreter-sized bound; compile-time UB: const-fn drivers that loop over small alphabets through every unsafe-backed safe function and macro form inside `const` items (error[E0080] = violation); location/UTF-8: every non-empty result of the string engines must lie inside its argument on char boundaries. Coverage of `unsafe` sites is bound by harness/unsafe_sites.json (unmapped files are reported). The native stage also re-runs the C07 exploration with a valid-char oracle (every yielded char must be a Unicode scalar value).",
@@ -67,7 +67,7 @@ CHECKS = {
          "About 310 generated bin targets: every misuse listed in the property (destructure! on Drop types, references, wrong counts, `..`; DSL double reversal, unsupported methods, arguments to argument-less methods; parser_method! non-literal patterns in every position of the pattern grammar incl. concat! arguments, missing/extra default branch) in every syntactic shape the macro accepts, each with a control that differs only by the offending element; invalid must be rejected, control must compile; diagnostics are recorded, not matched.",
          "3/C17"),
  "C18": ("program-space exploration: generated literal sets x six methods, each program run on all inputs over its own literals; the same literal tokens are decoded by rustc in the reference",
-         "Every escape kind alone, embedded and in pairs, line continuations followed by every whitespace class, raw strings with 0-2 hashes, multi-byte text, the empty literal and concat!, plus multi-branch sets with prefix-related literals, for strip_prefix/strip_suffix/find_skip/rfind_skip/trim_start_matches/trim_end_matches; inputs are all strings of up to 3 atoms over the program's literals and a foreign char, from three parser states; branch taken, offsets and remainder (content and address) compared with a reference that uses the same literal tokens as &str expressions.",
+         "Every escape kind alone, embedded and in pairs, line continuations followed by every whitespace class, raw strings with 0-2 hashes, multi-byte text, the empty literal and concat!, plus multi-branch sets with prefix-related literals, for strip_prefix/strip_suffix/find_skip/rfind_skip/trim_start_matches/trim_end_matches; inputs are all strings of up to 3 atoms over the program's literals and a foreign char, from three parser states; branch taken, offsets and remainder (content and address) - after the macro and as read by the branch expression itself - compared with a reference that uses the same literal tokens as &str expressions.",
          "3/C18"),
 }
 
